@@ -946,7 +946,7 @@ def _end_loops(f):
     return out
 
 
-def end_loop_findings(f):
+def end_loop_findings(f, join_sites=()):
     fnd = []
     loops = _end_loops(f)
     for loop, arm, lids, pushes in loops:
@@ -998,11 +998,33 @@ def end_loop_findings(f):
                 defs = body_of.defs.get(c["lid"], [])
                 return bool(defs) and all(d.get("k") not in ("Param", "ClosureParam", "Destructure", "Field") and implies_identity(d, pol, depth + 1) for d in defs)
             if k == "Match" and c.get("src") == "Normal":
-                rows = [(bool_lit(a["body"]), a) for a in c["arms"]]
-                if any(v is None for v, _a in rows):
-                    return False
-                sel = [a for v, a in rows if v == pol]
-                return bool(sel) and all(a.get("guard") is not None and implies_identity(a["guard"], True, depth + 1) for a in sel)
+                # the match has value `pol` only through an arm that can yield it: a literal arm is selected by its guard,
+                # any other arm yields its body's value
+                may = False
+                for a in c["arms"]:
+                    v = bool_lit(a["body"])
+                    if v is None:
+                        if not implies_identity(a["body"], pol, depth + 1):
+                            return False
+                        may = True
+                    elif v == pol:
+                        if a.get("guard") is None or not implies_identity(a["guard"], True, depth + 1):
+                            return False
+                        may = True
+                return may
+            if k == "If" and c.get("else") is not None:
+                may = False
+                for br, taken in ((c.get("then"), True), (c.get("else"), False)):
+                    v = bool_lit(br)
+                    if v is None:
+                        if not implies_identity(br, pol, depth + 1):
+                            return False
+                        may = True
+                    elif v == pol:
+                        if not implies_identity(c["cond"], taken, depth + 1):
+                            return False
+                        may = True
+                return may
             if k == "Let":
                 return False
             return False
@@ -1068,6 +1090,41 @@ def end_loop_findings(f):
                 return None
             if encloses(f["hir"], loop, False):
                 tied = True
+        # (d) join points: a handler records "the position after what I emitted" as a jump-table entry
+        #     (push_to_jump_table(get_instruction_len())) before it is known whether the root emits anything there.  Skipping
+        #     the end instruction then leaves that entry pointing at whatever is emitted next - the start of the next root,
+        #     or nothing.  So the skip must also look at the jump table: a comparison of a jump-table entry with the current
+        #     instruction length has to control it.
+        if join_sites:
+            def mentions(e, meth):
+                for x in walk(e):
+                    if x.get("k") == "MethodCall" and x.get("m") == meth:
+                        return True
+                    if x.get("k") == "Path" and x.get("res") == "local":
+                        if any(isinstance(o, dict) and o.get("k") == "MethodCall" and o.get("m") == meth for o in body_of.origins(x)):
+                            return True
+                return False
+            join_cmps = [n for n in walk(f["hir"]) if n.get("k") == "Binary" and n.get("op") in ("==", "!=", ">=", "<=", ">", "<")
+                         and ((mentions(n["l"], "get_from_jump_table") and mentions(n["r"], "get_instruction_len")) or (mentions(n["r"], "get_from_jump_table") and mentions(n["l"], "get_instruction_len")))]
+            tied_j = False
+            for loop, arm, lids, pushes in loops:
+                seen_l = set()
+                work_l = [x["lid"] for x in walk(arm["body"]) if x.get("k") == "Path" and x.get("res") == "local"]
+                exprs = [arm["body"]]
+                while work_l:
+                    l_ = work_l.pop()
+                    if l_ in seen_l:
+                        continue
+                    seen_l.add(l_)
+                    for d_ in body_of.defs.get(l_, []):
+                        if isinstance(d_, dict) and d_.get("k") not in ("Param", "ClosureParam", "Destructure", "Field"):
+                            exprs.append(d_)
+                            work_l.extend(x["lid"] for x in walk(d_) if x.get("k") == "Path" and x.get("res") == "local")
+                ids = set(id(x) for e_ in exprs for x in walk(e_))
+                if any(id(c) in ids for c in join_cmps):
+                    tied_j = True
+            if not tied_j:
+                fnd.append(("skip-ignores-join-point", loc(loops[0][0]), "an end instruction is skipped because the root already ends with it, although %d site(s) of the builder (%s) record 'the next instruction' as a jump-table entry: when such a join point is the position after the root's last instruction - `a ?> b |> ;;` - nothing is emitted there, the entry aliases the start of the next root and the branch jumps back into itself. No comparison of a jump-table entry with the instruction length controls the skip" % (len(join_sites), ", ".join(join_sites[:4]))))
         if not tied:
             fnd.append(("skip-not-tied-to-this-root", loc(loops[0][0]), "an end instruction is skipped when it equals the last instruction of the whole stream, without checking that this root emitted anything (no comparison of the instruction length with the length at the root's start controls the skip): a root that emits nothing - `{ ( ) }` - loses its terminator and its jump-table entry points past the end"))
     return fnd, len(loops)
@@ -1077,8 +1134,21 @@ def rule_T11(ctx):
     F = ctx.F
     r = RuleResult("T11", "root termination: the builder walks each root's end-instruction list to its end; an entry is skipped only when the identical pair is already the last instruction")
     total = 0
+    # handlers that record "the next instruction" as a jump-table entry
+    joins = {}
+    for g in builder_fns(F):
+        bo = None
+        for n_ in walk(g["hir"]):
+            if n_.get("k") == "MethodCall" and n_.get("m") == "push_to_jump_table" and n_.get("args"):
+                bo = bo or Body(g)
+                a0 = n_["args"][0]
+                if any(x.get("k") == "MethodCall" and x.get("m") == "get_instruction_len" for x in walk(a0)) or any(
+                        isinstance(o, dict) and o.get("k") == "MethodCall" and o.get("m") == "get_instruction_len" for x in walk(a0) if x.get("k") == "Path" and x.get("res") == "local" for o in bo.origins(x)):
+                    joins.setdefault(g["path"], []).append(loc(n_))
+    r.analysed["next_instruction_jump_entries"] = {last(k): v for k, v in joins.items()}
     for f in sorted(builder_fns(F), key=lambda f: f["path"]):
-        fnd, n = end_loop_findings(f)
+        others = [w for k, v in sorted(joins.items()) if k != f["path"] for w in v]
+        fnd, n = end_loop_findings(f, others)
         total += n
         if n:
             r.examine((f["path"],), True, {"fn": f["path"], "end_instruction_loops": n, "violations": len(fnd)})
@@ -1095,7 +1165,7 @@ def rule_T11(ctx):
     for f in F.fns_in("gfixture::t11::"):
         if f["kind"] == "Closure":
             continue
-        fnd, n = end_loop_findings(f)
+        fnd, n = end_loop_findings(f, ("a join point in another handler",) if "_join_" in f["name"] else ())
         if f["name"].startswith("ctl_"):
             r.control(f["name"], bool(fnd))
         elif f["name"].startswith("ok_"):
